@@ -304,6 +304,10 @@ func init() {
 			s += "\n/-- regenerated from object/typeconv.go: the type switch of " + fname + " -/\n"
 			s += "def " + strings.ToLower(fname[:1]) + fname[1:] + "Cases : List (String × Access) := [" + strings.Join(c19_switchCases(tc, fname), ", ") + "]\n"
 		}
+		// 4. modules/regexp: the hand-written wrappers (module functions and the methods of a
+		// compiled pattern)
+		s += "\n/-- regenerated from modules/regexp/regexp.go and regexp_object.go -/\n"
+		s += "def rxSigs : List RxSig := [\n" + strings.Join(c19_rxInventory(parse("modules/regexp/regexp.go"), parse("modules/regexp/regexp_object.go")), ",\n") + " ]\n"
 		s += "\nend Risor.Generated.C19\n"
 		return s
 	}})
@@ -385,6 +389,461 @@ func c19_switchCases(f *ast.File, fname string) []string {
 		for _, t := range cc.List {
 			rows = append(rows, fmt.Sprintf("(%q, %s)", c19_typeText(t), access))
 		}
+	}
+	return rows
+}
+
+// ------------------------------------------------------------------ modules/regexp
+//
+// Every wrapper of modules/regexp is written by hand: an arity test, `object.As…` converters on
+// args[i] in order, ONE call into Go's package regexp (a package function, or a method of the
+// compiled pattern r.value) on the converted values, a constructor around its result.  The
+// extractor reads off, per wrapper: registered name, the Go function, converters, the order in
+// which the converted values are passed on, the result constructor, an optional trailing int
+// with its default, whether an `error` result is handed back as object.NewError — and the fact
+// the theorems need: is the body that one call and NOTHING else (`.direct`)?  Any other call,
+// any branch that is not the arity test / an `err != nil` test / the test for the optional
+// argument, any second way to a result, any statement of another kind makes the body `.other`
+// (the tie then fails).  What cannot be read at all makes the extractor fail loudly.
+
+type c19rxWrapper struct {
+	name, goFn string
+	convs      []string
+	pass       []int
+	res        string
+	recv       bool
+	opt        string // "none" or "some (d)"
+	retErr     bool
+	compiled   bool
+	direct     bool
+	why        []string // why the body is not direct (diagnostics, written as a comment)
+}
+
+var c19rxGlue = map[string]bool{"len": true, "int": true, "append": true, "make": true, "arg.Require": true, "object.AsString": true, "object.AsInt": true,
+	"object.NewArgsError": true, "object.NewArgsRangeError": true, "object.NewError": true, "object.NewBool": true, "object.NewString": true,
+	"object.NewList": true, "NewRegexp": true}
+
+func c19_callName(c *ast.CallExpr) string {
+	if n := c19_selName(c.Fun); n != "" {
+		return n
+	}
+	return types.ExprString(c.Fun)
+}
+
+func c19_rxBody(name string, recv bool, body *ast.BlockStmt) c19rxWrapper {
+	w := c19rxWrapper{name: name, recv: recv, opt: "none", direct: true}
+	not := func(format string, a ...any) { w.direct = false; w.why = append(w.why, fmt.Sprintf(format, a...)) }
+	if recv {
+		w.convs = append(w.convs, ".str") // the receiver: the compiled pattern, identified by its source
+	}
+	base := len(w.convs)
+	if len(body.List) == 0 {
+		c19Fail("%s: empty body", name)
+	}
+	// (a) the arity test is the first statement
+	arityMin, arityMax := -1, -1
+	first, ok := body.List[0].(*ast.IfStmt)
+	if !ok {
+		c19Fail("%s: the first statement is not the arity test", name)
+	}
+	atoi := func(e ast.Expr) int {
+		lit, ok := e.(*ast.BasicLit)
+		if !ok {
+			c19Fail("%s: a number was expected, found %s", name, types.ExprString(e))
+		}
+		n, _ := strconv.Atoi(lit.Value)
+		return n
+	}
+	arityCond := types.ExprString(first.Cond)
+	switch {
+	case first.Init != nil && arityCond == "err != nil":
+		as, ok := first.Init.(*ast.AssignStmt)
+		if !ok || len(as.Rhs) != 1 {
+			c19Fail("%s: unexpected arity test", name)
+		}
+		call, ok := as.Rhs[0].(*ast.CallExpr)
+		if !ok || c19_selName(call.Fun) != "arg.Require" || len(call.Args) != 3 || types.ExprString(call.Args[2]) != "args" {
+			c19Fail("%s: unexpected arity test", name)
+		}
+		arityMin = atoi(call.Args[1])
+		arityMax = arityMin
+	case first.Init == nil:
+		if be, ok := first.Cond.(*ast.BinaryExpr); ok && be.Op == token.NEQ && types.ExprString(be.X) == "len(args)" {
+			arityMin = atoi(be.Y)
+			arityMax = arityMin
+		} else if ok && be.Op == token.LOR {
+			l, lok := be.X.(*ast.BinaryExpr)
+			r, rok := be.Y.(*ast.BinaryExpr)
+			if !lok || !rok || l.Op != token.LSS || r.Op != token.GTR || types.ExprString(l.X) != "len(args)" || types.ExprString(r.X) != "len(args)" {
+				c19Fail("%s: unexpected arity test %s", name, arityCond)
+			}
+			arityMin, arityMax = atoi(l.Y), atoi(r.Y)
+		} else {
+			c19Fail("%s: unexpected arity test %s", name, arityCond)
+		}
+	default:
+		c19Fail("%s: unexpected arity test %s", name, arityCond)
+	}
+	if len(first.Body.List) != 1 || first.Else != nil {
+		c19Fail("%s: the arity test does more than return an error", name)
+	}
+	if r, ok := first.Body.List[0].(*ast.ReturnStmt); !ok || len(r.Results) != 1 ||
+		!(types.ExprString(r.Results[0]) == "err" || strings.HasPrefix(types.ExprString(r.Results[0]), "object.NewArgs")) {
+		c19Fail("%s: the arity test does not return an args error", name)
+	}
+	if arityMax != arityMin && arityMax != arityMin+1 {
+		c19Fail("%s: more than one optional argument", name)
+	}
+	// (b) everything after it
+	vars := map[string]int{} // converted variable -> position among the converted values
+	rawInt := map[string]int{} // i64 of `i64, err := object.AsInt(args[k])` -> k
+	optVar := ""
+	var libCalls []*ast.CallExpr
+	libSrc := map[string]bool{}  // identifiers bound to the result of the library call
+	built := map[string]string{} // slice identifiers filled element by element -> "" (declared) / source identifier
+	errIfs, resultReturns := 0, 0
+	var resultExpr ast.Expr
+	isLib := func(c *ast.CallExpr) bool {
+		n := types.ExprString(c.Fun)
+		return strings.HasPrefix(n, "regexp.") || strings.HasPrefix(n, "r.value.")
+	}
+	var walk func(list []ast.Stmt, top bool)
+	walk = func(list []ast.Stmt, top bool) {
+		for i, st := range list {
+			switch x := st.(type) {
+			case *ast.AssignStmt:
+				lhs0 := c19_selName(x.Lhs[0])
+				if len(x.Rhs) != 1 {
+					not("assignment with %d right-hand sides", len(x.Rhs))
+					continue
+				}
+				call, isCall := x.Rhs[0].(*ast.CallExpr)
+				switch {
+				case isCall && (c19_selName(call.Fun) == "object.AsString" || c19_selName(call.Fun) == "object.AsInt"):
+					ix, ok := call.Args[0].(*ast.IndexExpr)
+					if !ok || len(x.Lhs) != 2 || c19_selName(x.Lhs[1]) != "err" || c19_selName(ix.X) != "args" {
+						c19Fail("%s: converter not of the form `v, err := object.AsX(args[i])`", name)
+					}
+					k := atoi(ix.Index)
+					if c19_selName(call.Fun) == "object.AsString" {
+						if k != len(w.convs)-base {
+							c19Fail("%s: converters do not read args[0], args[1], … in order", name)
+						}
+						vars[lhs0] = len(w.convs)
+						w.convs = append(w.convs, ".str")
+					} else {
+						rawInt[lhs0] = k
+					}
+					// followed by `if err != nil { return err }`
+					if i+1 >= len(list) {
+						c19Fail("%s: converter result is not tested", name)
+					}
+					is, ok := list[i+1].(*ast.IfStmt)
+					if !ok || types.ExprString(is.Cond) != "err != nil" || is.Init != nil || len(is.Body.List) != 1 {
+						c19Fail("%s: converter is not followed by `if err != nil { return err }`", name)
+					}
+				case !isCall && x.Tok == token.DEFINE && len(x.Lhs) == 1 && top:
+					// n := -1   (the default of the optional argument)
+					d, err := strconv.ParseInt(types.ExprString(x.Rhs[0]), 10, 64)
+					if err != nil || optVar != "" {
+						not("assignment %s", types.ExprString(x.Rhs[0]))
+						continue
+					}
+					optVar = lhs0
+					w.opt = fmt.Sprintf("some (%d)", d)
+				case isCall && c19_selName(call.Fun) == "int" && x.Tok == token.ASSIGN && lhs0 == optVar && optVar != "":
+					// n = int(i64)
+					k, ok := rawInt[c19_selName(call.Args[0])]
+					if !ok || k != len(w.convs)-base {
+						c19Fail("%s: the optional argument is not the next argument", name)
+					}
+					vars[optVar] = len(w.convs)
+					w.convs = append(w.convs, ".int")
+				case isCall && isLib(call):
+					for _, l := range x.Lhs {
+						_ = l
+					}
+					libSrc[lhs0] = true
+					if len(x.Lhs) == 2 {
+						if c19_selName(x.Lhs[1]) != "rErr" {
+							not("second result of the library call is called %s", c19_selName(x.Lhs[1]))
+						}
+						w.retErr = true
+					}
+				case isCall && c19_selName(call.Fun) == "make" && x.Tok == token.DEFINE:
+					built[lhs0] = ""
+				case isCall && c19_selName(call.Fun) == "append" && x.Tok == token.ASSIGN && !top:
+					// matches = append(matches, object.NewString(match))
+					if _, ok := built[lhs0]; !ok || len(call.Args) != 2 || c19_selName(call.Args[0]) != lhs0 {
+						not("append to %s", lhs0)
+					}
+				default:
+					not("assignment %s", types.ExprString(x.Rhs[0]))
+				}
+			case *ast.DeclStmt: // var matches []object.Object
+				gd, ok := x.Decl.(*ast.GenDecl)
+				if !ok || gd.Tok != token.VAR || len(gd.Specs) != 1 {
+					not("declaration")
+					continue
+				}
+				vs := gd.Specs[0].(*ast.ValueSpec)
+				if len(vs.Names) != 1 || len(vs.Values) != 0 || types.ExprString(vs.Type) != "[]object.Object" {
+					not("declaration of %s", vs.Names[0].Name)
+					continue
+				}
+				built[vs.Names[0].Name] = ""
+			case *ast.IfStmt:
+				cond := types.ExprString(x.Cond)
+				switch {
+				case x == first:
+				case cond == "err != nil" && x.Init == nil && x.Else == nil:
+					errIfs++
+					if r, ok := x.Body.List[0].(*ast.ReturnStmt); !ok || len(x.Body.List) != 1 || len(r.Results) != 1 || types.ExprString(r.Results[0]) != "err" {
+						not("`if err != nil` does more than return err")
+					}
+				case cond == "rErr != nil" && x.Init == nil && x.Else == nil:
+					if r, ok := x.Body.List[0].(*ast.ReturnStmt); !ok || len(x.Body.List) != 1 || len(r.Results) != 1 || types.ExprString(r.Results[0]) != "object.NewError(rErr)" {
+						not("`if rErr != nil` does not return object.NewError(rErr)")
+					}
+				case cond == fmt.Sprintf("len(args) == %d", arityMax) && arityMax == arityMin+1 && x.Init == nil && x.Else == nil && top:
+					walk(x.Body.List, false)
+				default:
+					not("branch on `%s`", cond)
+				}
+			case *ast.RangeStmt: // for _, m := range <library call | its result> { out = append(out, object.NewString(m)) }
+				src := ""
+				if c, ok := x.X.(*ast.CallExpr); ok && isLib(c) {
+					src = "call"
+				} else if id := c19_selName(x.X); libSrc[id] {
+					src = id
+				}
+				elem := c19_selName(x.Value)
+				if src == "" || !top || len(x.Body.List) != 1 || c19_selName(x.Key) != "_" {
+					not("loop over %s", types.ExprString(x.X))
+					continue
+				}
+				as, ok := x.Body.List[0].(*ast.AssignStmt)
+				if !ok || len(as.Rhs) != 1 {
+					not("loop body")
+					continue
+				}
+				ap, ok := as.Rhs[0].(*ast.CallExpr)
+				if !ok || c19_selName(ap.Fun) != "append" || len(ap.Args) != 2 || types.ExprString(ap.Args[1]) != "object.NewString("+elem+")" {
+					not("loop body %s", types.ExprString(as.Rhs[0]))
+					continue
+				}
+				dst := c19_selName(as.Lhs[0])
+				if prev, ok := built[dst]; !ok || prev != "" || c19_selName(ap.Args[0]) != dst {
+					not("loop fills %s", dst)
+					continue
+				}
+				built[dst] = "lib"
+			case *ast.ReturnStmt:
+				if len(x.Results) != 1 {
+					not("return of %d values", len(x.Results))
+					continue
+				}
+				t := types.ExprString(x.Results[0])
+				if t == "err" || t == "object.NewError(rErr)" || strings.HasPrefix(t, "object.NewArgs") {
+					continue
+				}
+				resultReturns++
+				resultExpr = x.Results[0]
+				if !top || i != len(list)-1 {
+					not("a result is returned before the end of the body")
+				}
+			default:
+				not("statement %T", st)
+			}
+		}
+	}
+	walk(body.List, true)
+	// (c) every call in the body: glue, or THE library call
+	ast.Inspect(body, func(n ast.Node) bool {
+		if fl, ok := n.(*ast.FuncLit); ok && fl.Body != body {
+			not("nested function literal")
+			return false
+		}
+		c, ok := n.(*ast.CallExpr)
+		if !ok {
+			return true
+		}
+		switch {
+		case isLib(c):
+			libCalls = append(libCalls, c)
+		case c19rxGlue[c19_callName(c)]:
+		default:
+			not("call of %s", c19_callName(c))
+		}
+		return true
+	})
+	if len(libCalls) != 1 {
+		not("%d calls into package regexp", len(libCalls))
+	}
+	if len(libCalls) >= 1 {
+		c := libCalls[0]
+		fn := types.ExprString(c.Fun)
+		if strings.HasPrefix(fn, "r.value.") {
+			if !recv {
+				c19Fail("%s: r.value outside a method", name)
+			}
+			w.goFn = "Regexp." + strings.TrimPrefix(fn, "r.value.")
+			w.pass = append(w.pass, 0)
+		} else {
+			w.goFn = fn
+		}
+		for _, a := range c.Args {
+			k, ok := vars[c19_selName(a)]
+			if !ok {
+				not("argument %s of %s is not a converted argument", types.ExprString(a), fn)
+				continue
+			}
+			w.pass = append(w.pass, k)
+		}
+	}
+	// (d) the one result: a constructor around the library call's result
+	if resultReturns != 1 || resultExpr == nil {
+		not("%d returns of a result", resultReturns)
+		w.res = ".str"
+	} else {
+		rc, ok := resultExpr.(*ast.CallExpr)
+		if !ok || len(rc.Args) != 1 {
+			c19Fail("%s: the result is not a constructor call", name)
+		}
+		fromLib := func(e ast.Expr) bool {
+			if c, ok := e.(*ast.CallExpr); ok {
+				return len(libCalls) == 1 && c == libCalls[0]
+			}
+			return libSrc[c19_selName(e)]
+		}
+		switch c19_selName(rc.Fun) {
+		case "object.NewBool":
+			w.res = ".bool"
+			if !fromLib(rc.Args[0]) {
+				not("the result does not come from the library call")
+			}
+		case "object.NewString":
+			w.res = ".str"
+			if !fromLib(rc.Args[0]) {
+				not("the result does not come from the library call")
+			}
+		case "NewRegexp":
+			w.res = ".str"
+			w.compiled = true
+			if !fromLib(rc.Args[0]) {
+				not("the result does not come from the library call")
+			}
+		case "object.NewList":
+			w.res = ".strList"
+			if built[c19_selName(rc.Args[0])] != "lib" {
+				not("the list is not built from the library call's result")
+			}
+		default:
+			c19Fail("%s: unknown result constructor %s", name, c19_selName(rc.Fun))
+		}
+	}
+	nConv := len(w.convs) - base
+	if nConv != arityMax {
+		c19Fail("%s: %d converters for at most %d arguments", name, nConv, arityMax)
+	}
+	if (arityMax == arityMin+1) != (w.opt != "none") {
+		c19Fail("%s: arity range and optional argument disagree", name)
+	}
+	wantErrIfs := nConv
+	if errIfs != wantErrIfs {
+		not("%d `err != nil` tests for %d converters", errIfs, nConv)
+	}
+	return w
+}
+
+func c19_rxInventory(mod, obj *ast.File) []string {
+	funcs := map[string]*ast.FuncDecl{}
+	for _, f := range []*ast.File{mod, obj} {
+		for _, d := range f.Decls {
+			if fd, ok := d.(*ast.FuncDecl); ok {
+				key := fd.Name.Name
+				if fd.Recv != nil {
+					key = "(method)." + key
+				}
+				funcs[key] = fd
+			}
+		}
+	}
+	var ws []c19rxWrapper
+	// module functions: Module() returns object.NewBuiltinsModule("regexp", map[string]object.Object{ "name": object.NewBuiltin("name", Fn), … }, Compile)
+	m := funcs["Module"]
+	if m == nil {
+		c19Fail("modules/regexp: func Module not found")
+	}
+	found := false
+	ast.Inspect(m.Body, func(n ast.Node) bool {
+		cl, ok := n.(*ast.CompositeLit)
+		if !ok {
+			return true
+		}
+		found = true
+		for _, el := range cl.Elts {
+			kv := el.(*ast.KeyValueExpr)
+			key, _ := strconv.Unquote(kv.Key.(*ast.BasicLit).Value)
+			call, ok := kv.Value.(*ast.CallExpr)
+			if !ok || c19_selName(call.Fun) != "object.NewBuiltin" || len(call.Args) != 2 {
+				c19Fail("regexp.%s is not registered as object.NewBuiltin(name, fn)", key)
+			}
+			fd := funcs[c19_selName(call.Args[1])]
+			if fd == nil {
+				c19Fail("regexp.%s: function %s not found", key, c19_selName(call.Args[1]))
+			}
+			ws = append(ws, c19_rxBody("regexp."+key, false, fd.Body))
+		}
+		return false
+	})
+	if !found {
+		c19Fail("modules/regexp: no registration table in Module()")
+	}
+	// methods: the switch of (*Regexp).GetAttr
+	ga := funcs["(method).GetAttr"]
+	if ga == nil {
+		c19Fail("modules/regexp: (*Regexp).GetAttr not found")
+	}
+	if len(ga.Body.List) != 2 {
+		c19Fail("(*Regexp).GetAttr is not `switch name {…}; return nil, false`")
+	}
+	sw, ok := ga.Body.List[0].(*ast.SwitchStmt)
+	if !ok || types.ExprString(sw.Tag) != "name" {
+		c19Fail("(*Regexp).GetAttr does not start with `switch name`")
+	}
+	for _, st := range sw.Body.List {
+		cc := st.(*ast.CaseClause)
+		if len(cc.List) != 1 || len(cc.Body) != 1 {
+			c19Fail("(*Regexp).GetAttr: a case is not `case \"name\": return object.NewBuiltin(…), true`")
+		}
+		key, _ := strconv.Unquote(cc.List[0].(*ast.BasicLit).Value)
+		r, ok := cc.Body[0].(*ast.ReturnStmt)
+		if !ok || len(r.Results) != 2 || types.ExprString(r.Results[1]) != "true" {
+			c19Fail("(*Regexp).GetAttr case %q does not return (builtin, true)", key)
+		}
+		call, ok := r.Results[0].(*ast.CallExpr)
+		if !ok || c19_selName(call.Fun) != "object.NewBuiltin" || len(call.Args) != 2 {
+			c19Fail("(*Regexp).GetAttr case %q does not return object.NewBuiltin(name, fn)", key)
+		}
+		fl, ok := call.Args[1].(*ast.FuncLit)
+		if !ok {
+			c19Fail("(*Regexp).GetAttr case %q: the builtin is not a function literal", key)
+		}
+		ws = append(ws, c19_rxBody(key, true, fl.Body))
+	}
+	var rows []string
+	for _, w := range ws {
+		pass := make([]string, len(w.pass))
+		for i, p := range w.pass {
+			pass[i] = strconv.Itoa(p)
+		}
+		body := ".direct"
+		if !w.direct {
+			body = ".other /- " + strings.ReplaceAll(strings.Join(w.why, "; "), "-/", "- /") + " -/"
+		}
+		rows = append(rows, fmt.Sprintf("  ⟨⟨%q, %q, [%s], [%s], %s, []⟩, %v, %s, %v, %v, %s⟩", w.name, w.goFn, strings.Join(w.convs, ", "),
+			strings.Join(pass, ", "), w.res, w.recv, w.opt, w.retErr, w.compiled, body))
 	}
 	return rows
 }
